@@ -13,7 +13,7 @@ def run(tree, rep, tier):
     prog = flow.prog
     A1_inventory(rep, flow)
     entries = []
-    for mn in ["circuit_lookup"] + API_MODULES:
+    for mn in ["circuit_lookup", "connectivity_support"] + API_MODULES:
         m = prog.modules.get(mn)
         if m is None:
             raise AnalysisError(f"anchor module {mn} vanished")
